@@ -352,7 +352,9 @@ let run_tracecc infile outfile =
               prevrole.(g.g_id) <- obs.p_role;
               if prevcfg.(g.g_id) <> obs_cfg then incr confs;
               prevcfg.(g.g_id) <- obs_cfg;
-              (let rec go c = function [] -> () | e :: t -> let c' = cfg_of c [e] in add_cfg c'; go c' t in go boot obs.p_log);
+              (* the envelope of the proved part: the configurations along the COMMITTED prefix *)
+              (let rec go k c = function [] -> () | e :: t -> if k > 0 then (let c' = cfg_of c [e] in add_cfg c'; go (k - 1) c' t) in
+               go (int_of_nat obs.p_commit) boot obs.p_log);
               x := normalize_cc n x'
             | CVBadEvent -> fail := Some (Printf.sprintf "event=%d reason=delivered-message-never-sent | %s" !idx (String.concat " " g.g_args)); raise Exit
             | CVMissingReply m -> fail := Some (Printf.sprintf "event=%d reason=missing-reply | model replies: %s | %s %d %s" !idx (msg_str m) g.g_kind g.g_id (String.concat " " g.g_args)); raise Exit
